@@ -5,6 +5,7 @@ package main
 // (= one family of queries sharing a preamble).
 
 import (
+	"regexp"
 	"fmt"
 	"go/constant"
 	"go/types"
@@ -198,7 +199,22 @@ func (c *Ctx) resolve(t string) string {
 
 func qual(p *types.Package) string { return p.Name() }
 
-func typeStr(t types.Type) string { return types.TypeString(t, qual) }
+// typeStr names a type; the universe aliases byte and rune are written as
+// uint8 and int32 so that []byte and []uint8 share one heap region.
+func typeStr(t types.Type) string {
+	s := types.TypeString(t, qual)
+	if strings.Contains(s, "byte") || strings.Contains(s, "rune") {
+		s = aliasRe.ReplaceAllStringFunc(s, func(m string) string {
+			if m == "byte" {
+				return "uint8"
+			}
+			return "int32"
+		})
+	}
+	return s
+}
+
+var aliasRe = regexp.MustCompile(`\b(byte|rune)\b`)
 
 func san(s string) string {
 	var b strings.Builder
